@@ -1252,7 +1252,7 @@ func (z *Decimal) SetMantExp(mant *Decimal, exp int) *Decimal {
 	if z.form != finite {
 		return z
 	}
-	z.setExpAndRound(int64(z.exp)+int64(exp), 0)
+	z.setExpAndRound(int64(z.exp)+clampExp(int64(exp)), 0)
 	return z
 }
 
